@@ -138,6 +138,9 @@ class SourceAD(MVPN):
                 5,
                 f'Unsupported Source Active A-D Route Multicast Group IP length ({int(groupiplen * 8)} bits). Expected 32 bits (IPv4) or 128 bits (IPv6).',
             )
+        if cursor + 1 + int(groupiplen) != len(packed):
+            # a 128 bit group length in front of the 4 octets which are left is not a 32 bit group
+            raise Notify(3, 5, 'the source and group lengths do not add up to the length of the route')
 
         # Missing implementation of this check from RFC 6514:
         # Source Active A-D routes with a Multicast group belonging to the
